@@ -503,7 +503,8 @@ def expected_client_values(tag, desc, cl, libvers):
     for q, (rn, li) in enumerate(cl["_ruses"]):
         vals["rd%d" % q] = f"lib{li}:{rn}:v{libvers[li]}"
     if cl["own_macro"]:
-        vals["ownval"] = f"cli{desc['clients'].index(cl)}:own:v{cl['_textver']}"
+        # (identity, not equality: two clients of a world may have equal specs)
+        vals["ownval"] = f"cli{[i for i, c in enumerate(desc['clients']) if c is cl][0]}:own:v{cl['_textver']}"
     if cl.get("_local"):
         li, n = cl["_local"]
         vals["localreq()"] = macro_value(li, cl["_kinds"], n, libvers[li], 77)
